@@ -127,7 +127,7 @@ def run(shard, rec):
         if not rec.wants(case):
             continue
         expected = progs.expected_outputs(spec)
-        w = sim.World(m, t, no_prss, seed=sseed, policy=policy).run(progs.build(spec))
+        w = sim.World(m, t, no_prss, seed=sseed, policy=policy, history='auto').run(progs.build(spec))
         rec.count('programs_run')
         res = w.ok_results()
         what = f'{shard["name"]} secint{l} program {pi} {[s[0] for s in spec["steps"]]}'
